@@ -367,6 +367,36 @@ class AccessPattern_canonicalize:
         check("canary: nothing is ever dropped", len(ret.bounds) == sh["dims"])
 
 
+@contract
+class AccessPattern_canonicalize_unbounded:
+    """templates may leave a dimension UNBOUNDED (bound None): such a dimension is kept, whatever the others are"""
+    target = "snaxc.ir.dart.access_pattern.AccessPattern.canonicalize"
+    shapes = [dict(rows=r, dims=n, none=m) for r in (1, 2) for n in (1, 2, 3) for m in range(1, 2 ** n)]
+    quick = lambda sh: sh["rows"] == 1 or sh["dims"] <= 2
+    total = True
+
+    def args(sh, sym):
+        n = sh["dims"]
+        bounds = [None if (sh["none"] >> j) & 1 else sym.int(f"B{j}", 1) for j in range(n)]
+        return [TemplatePattern(bounds, mk_transform(sym, "", sh["rows"], n)), [sym.int(f"x{j}", 0) for j in range(n)]]
+
+    def run(sh, a):
+        return a[0].canonicalize()
+
+    def ensures(sh, a, ret):
+        tp, x = a
+        n = sh["dims"]
+        keep = [j for j in range(n) if tp.bounds[j] is None or tp.bounds[j] > 1]
+        check("unbounded dimensions and bounded non-unit ones are kept, in order", list(ret.bounds) == [tp.bounds[j] for j in keep] and isinstance(ret, TemplatePattern))
+        if ret.num_dims != len(keep):
+            return  # reported above; the point below could not even be formed
+        inside = all(x[j] < tp.bounds[j] for j in range(n) if tp.bounds[j] is not None)
+        check("same operand index at every point of the (partly unbounded) box", implies(inside, ev(ret, [x[j] for j in keep]) == ev(tp, x)))
+
+    def canary(sh, a, ret):
+        check("canary: every dimension is dropped", len(ret.bounds) == 0)
+
+
 def mk_schedule(sym, ops, rows, dims):
     bounds = [sym.int(f"B{j}", 1) for j in range(dims)]
     return Schedule([SchedulePattern(bounds, mk_transform(sym, f"o{i}", rows, dims)) for i in range(ops)])
